@@ -1,10 +1,10 @@
 (* translate/r2c tie, round 4 (3): ToBytes of RawU16 / RawU24 / RawU32 (core/src/pixelcolor/raw/to_bytes.rs) and the multi-byte
    Framebuffer::set_pixel (body of `impl_bytes!`, src/framebuffer.rs:252-266, one instance per invocation: raw type x byte
-   order, the method `$to_bytes_fn` is a macro parameter).  `self.data[i..i + N].copy_from_slice(&bytes)` is Casts.slice_copy.
-   The data afterwards equals Framebuffer.fb_set_pixel when the buffer covers WIDTH x HEIGHT pixels (then the range is
-   inside the buffer; otherwise Rust panics). *)
+   order, the method `$to_bytes_fn` is a macro parameter).  `self.data[i..i + N].copy_from_slice(&bytes)` is Casts.slice_copy
+   under the test Casts.slice_copy_ok (None = Rust's panic when the range is outside the buffer).  The data afterwards equals
+   Framebuffer.fb_set_pixel when the buffer covers WIDTH x HEIGHT pixels (then the range is inside the buffer). *)
 From EG Require Import Base.Prelude Base.Casts Model.Geometry Model.Rawdata Model.Framebuffer.
-From EG Require Import Gen.SrcGeometry Gen.SrcRawData Gen.SrcToBytes Gen.SrcFbSetPixel Gen.SrcFbSetPixelBytes Proofs.SrcLoadStoreBytes.
+From EG Require Import Gen.SrcGeometry Gen.SrcRawData Gen.SrcToBytes Gen.SrcFbSetPixel Gen.SrcFbSetPixelBytes Proofs.SrcLoadStoreBytes Proofs.SrcFbSetPixel.
 Set Default Timeout 60.
 
 Lemma to_bytes_eq v :
@@ -31,130 +31,170 @@ Qed.
 
 Definition buf_ok (t : rawty) (W H : Z) (data : list Z) : Prop := W * (bits t / 8) * H <= Z.of_nat (length data).
 
-Lemma src_fb_set_pixel_RawU16_le_eq W H into fb p c :
-  0 <= W -> i32_min <= px p <= i32_max -> i32_min <= py p <= i32_max -> buf_ok U16 W H (Framebuffer_data fb) ->
-  Framebuffer_data (src_Framebuffer_set_pixel_RawU16_le W H into fb p c)
-  = fb_set_pixel (FbCfg U16 false W H) (Framebuffer_data fb) (px p, py p) (into c).
+Lemma slice_copy_ok_eq (l : list Z) a n bs : 0 <= a -> Z.of_nat (length bs) = n ->
+  Casts.slice_copy_ok l a (a + n) bs = (a + n <=? Z.of_nat (length l)).
 Proof.
-  intros HW Hx Hy Hbuf. unfold src_Framebuffer_set_pixel_RawU16_le, fb_set_pixel, Casts.try_from_range, i32_min, i32_max, buf_ok in *.
-  cbn [fb_t fb_w fb_h fb_alt]. change (bits U16 / 8) with 2 in Hbuf. change (src_RawU16_BITS_PER_PIXEL / 8) with 2.
-  destruct (Z.leb_spec 0 (px p)) as [X|X]; cbn [andb].
-  2:{ destruct ((px p <=? 18446744073709551615)); reflexivity. }
-  destruct (Z.leb_spec 0 (py p)) as [Y|Y]; cbn [andb].
-  2:{ rewrite (proj2 (Z.leb_le (px p) 18446744073709551615)) by lia. destruct (py p <=? 18446744073709551615); reflexivity. }
-  rewrite (proj2 (Z.leb_le (px p) 18446744073709551615)) by lia.
-  rewrite (proj2 (Z.leb_le (py p) 18446744073709551615)) by lia.
-  destruct ((px p <? W) && (py p <? H))%bool eqn:E; [|reflexivity].
-  apply andb_prop in E. destruct E as [E1 E2]. apply Z.ltb_lt in E1. apply Z.ltb_lt in E2.
-  cbv zeta. cbn [Framebuffer_data]. rewrite !Casts.cast_i32_usize_id by lia.
-  change (nbytes U16) with 2.
-  destruct (to_bytes_eq (into c)) as [B1 [B2 [B3 [B4 [B5 B6]]]]]. rewrite B1.
-  apply slice_copy_splice; [nia | destruct false; reflexivity | nia].
+  intros Ha Hn. unfold Casts.slice_copy_ok.
+  rewrite (proj2 (Z.leb_le 0 a)) by lia. rewrite (proj2 (Z.leb_le a (a + n))) by lia.
+  replace (a + n - a) with n by lia. rewrite <- Hn, Z.eqb_refl. cbn [andb]. rewrite Bool.andb_true_r. reflexivity.
 Qed.
 
-Lemma src_fb_set_pixel_RawU16_be_eq W H into fb p c :
-  0 <= W -> i32_min <= px p <= i32_max -> i32_min <= py p <= i32_max -> buf_ok U16 W H (Framebuffer_data fb) ->
-  Framebuffer_data (src_Framebuffer_set_pixel_RawU16_be W H into fb p c)
-  = fb_set_pixel (FbCfg U16 true W H) (Framebuffer_data fb) (px p, py p) (into c).
+(* the multi-byte set_pixel is option-valued: None = the panic of `self.data[i..i + N].copy_from_slice(..)`.  It panics exactly
+   when the point is inside the framebuffer and the byte range ends outside the data array; otherwise the data is the model's. *)
+Definition bytes_end (t : rawty) (W : Z) (p : point) : Z := (py p * W + px p) * nbytes t + nbytes t.
+
+Ltac set_pixel_bytes B t nb :=
+  match goal with |- forall W H into fb p c, _ =>
+  intros W H into fb p c Hx Hy; destruct fb as [data na];
+  unfold fb_set_pixel, in_fb, bytes_end, Casts.try_from_range, i32_min, i32_max in *;
+  cbn [fb_t fb_w fb_h fb_alt Framebuffer_data Framebuffer_n_assert]; change (nbytes t) with nb;
+  destruct (Z.leb_spec 0 (px p)) as [X|X]; cbn [andb];
+  [|destruct ((px p <=? 18446744073709551615)); reflexivity];
+  destruct (Z.leb_spec 0 (py p)) as [Y|Y]; cbn [andb];
+  [|rewrite (proj2 (Z.leb_le (px p) 18446744073709551615)) by lia; destruct (py p <=? 18446744073709551615); reflexivity];
+  rewrite (proj2 (Z.leb_le (px p) 18446744073709551615)) by lia;
+  rewrite (proj2 (Z.leb_le (py p) 18446744073709551615)) by lia;
+  destruct ((px p <? W) && (py p <? H))%bool eqn:E; [|reflexivity];
+  apply andb_prop in E; destruct E as [E1 E2]; apply Z.ltb_lt in E1; apply Z.ltb_lt in E2; cbn [andb];
+  cbv zeta; rewrite !Casts.cast_i32_usize_id by lia;
+  destruct (to_bytes_eq (into c)) as [B1 [B2 [B3 [B4 [B5 B6]]]]]; rewrite B;
+  rewrite (slice_copy_ok_eq data ((py p * W + px p) * nb) nb) by (try nia; match goal with |- context [encode_bytes _ ?o _] => destruct o end; reflexivity);
+  destruct (Z.leb_spec ((py p * W + px p) * nb + nb) (Z.of_nat (length data))) as [L|L]; cbn [negb]; [|reflexivity];
+  rewrite slice_copy_splice by (try nia; match goal with |- context [encode_bytes _ ?o _] => destruct o end; reflexivity);
+  reflexivity
+  end.
+
+Lemma src_fb_set_pixel_RawU16_le_eq : forall W H into fb p c,
+  i32_min <= px p <= i32_max -> i32_min <= py p <= i32_max ->
+  src_Framebuffer_set_pixel_RawU16_le W H into fb p c
+  = if in_fb W H p && negb (bytes_end U16 W p <=? Z.of_nat (length (Framebuffer_data fb)))
+    then None
+    else Some (Build_Framebuffer (fb_set_pixel (FbCfg U16 false W H) (Framebuffer_data fb) (px p, py p) (into c)) (Framebuffer_n_assert fb)).
 Proof.
-  intros HW Hx Hy Hbuf. unfold src_Framebuffer_set_pixel_RawU16_be, fb_set_pixel, Casts.try_from_range, i32_min, i32_max, buf_ok in *.
-  cbn [fb_t fb_w fb_h fb_alt]. change (bits U16 / 8) with 2 in Hbuf. change (src_RawU16_BITS_PER_PIXEL / 8) with 2.
-  destruct (Z.leb_spec 0 (px p)) as [X|X]; cbn [andb].
-  2:{ destruct ((px p <=? 18446744073709551615)); reflexivity. }
-  destruct (Z.leb_spec 0 (py p)) as [Y|Y]; cbn [andb].
-  2:{ rewrite (proj2 (Z.leb_le (px p) 18446744073709551615)) by lia. destruct (py p <=? 18446744073709551615); reflexivity. }
-  rewrite (proj2 (Z.leb_le (px p) 18446744073709551615)) by lia.
-  rewrite (proj2 (Z.leb_le (py p) 18446744073709551615)) by lia.
-  destruct ((px p <? W) && (py p <? H))%bool eqn:E; [|reflexivity].
-  apply andb_prop in E. destruct E as [E1 E2]. apply Z.ltb_lt in E1. apply Z.ltb_lt in E2.
-  cbv zeta. cbn [Framebuffer_data]. rewrite !Casts.cast_i32_usize_id by lia.
-  change (nbytes U16) with 2.
-  destruct (to_bytes_eq (into c)) as [B1 [B2 [B3 [B4 [B5 B6]]]]]. rewrite B2.
-  apply slice_copy_splice; [nia | destruct true; reflexivity | nia].
+  unfold src_Framebuffer_set_pixel_RawU16_le. change (src_RawU16_BITS_PER_PIXEL / 8) with 2. change (nbytes U16) with 2.
+  set_pixel_bytes B1 U16 2.
 Qed.
 
-Lemma src_fb_set_pixel_RawU24_le_eq W H into fb p c :
-  0 <= W -> i32_min <= px p <= i32_max -> i32_min <= py p <= i32_max -> buf_ok U24 W H (Framebuffer_data fb) ->
-  Framebuffer_data (src_Framebuffer_set_pixel_RawU24_le W H into fb p c)
-  = fb_set_pixel (FbCfg U24 false W H) (Framebuffer_data fb) (px p, py p) (into c).
+Lemma src_fb_set_pixel_RawU16_be_eq : forall W H into fb p c,
+  i32_min <= px p <= i32_max -> i32_min <= py p <= i32_max ->
+  src_Framebuffer_set_pixel_RawU16_be W H into fb p c
+  = if in_fb W H p && negb (bytes_end U16 W p <=? Z.of_nat (length (Framebuffer_data fb)))
+    then None
+    else Some (Build_Framebuffer (fb_set_pixel (FbCfg U16 true W H) (Framebuffer_data fb) (px p, py p) (into c)) (Framebuffer_n_assert fb)).
 Proof.
-  intros HW Hx Hy Hbuf. unfold src_Framebuffer_set_pixel_RawU24_le, fb_set_pixel, Casts.try_from_range, i32_min, i32_max, buf_ok in *.
-  cbn [fb_t fb_w fb_h fb_alt]. change (bits U24 / 8) with 3 in Hbuf. change (src_RawU24_BITS_PER_PIXEL / 8) with 3.
-  destruct (Z.leb_spec 0 (px p)) as [X|X]; cbn [andb].
-  2:{ destruct ((px p <=? 18446744073709551615)); reflexivity. }
-  destruct (Z.leb_spec 0 (py p)) as [Y|Y]; cbn [andb].
-  2:{ rewrite (proj2 (Z.leb_le (px p) 18446744073709551615)) by lia. destruct (py p <=? 18446744073709551615); reflexivity. }
-  rewrite (proj2 (Z.leb_le (px p) 18446744073709551615)) by lia.
-  rewrite (proj2 (Z.leb_le (py p) 18446744073709551615)) by lia.
-  destruct ((px p <? W) && (py p <? H))%bool eqn:E; [|reflexivity].
-  apply andb_prop in E. destruct E as [E1 E2]. apply Z.ltb_lt in E1. apply Z.ltb_lt in E2.
-  cbv zeta. cbn [Framebuffer_data]. rewrite !Casts.cast_i32_usize_id by lia.
-  change (nbytes U24) with 3.
-  destruct (to_bytes_eq (into c)) as [B1 [B2 [B3 [B4 [B5 B6]]]]]. rewrite B3.
-  apply slice_copy_splice; [nia | destruct false; reflexivity | nia].
+  unfold src_Framebuffer_set_pixel_RawU16_be. change (src_RawU16_BITS_PER_PIXEL / 8) with 2. change (nbytes U16) with 2.
+  set_pixel_bytes B2 U16 2.
 Qed.
 
-Lemma src_fb_set_pixel_RawU24_be_eq W H into fb p c :
-  0 <= W -> i32_min <= px p <= i32_max -> i32_min <= py p <= i32_max -> buf_ok U24 W H (Framebuffer_data fb) ->
-  Framebuffer_data (src_Framebuffer_set_pixel_RawU24_be W H into fb p c)
-  = fb_set_pixel (FbCfg U24 true W H) (Framebuffer_data fb) (px p, py p) (into c).
+Lemma src_fb_set_pixel_RawU24_le_eq : forall W H into fb p c,
+  i32_min <= px p <= i32_max -> i32_min <= py p <= i32_max ->
+  src_Framebuffer_set_pixel_RawU24_le W H into fb p c
+  = if in_fb W H p && negb (bytes_end U24 W p <=? Z.of_nat (length (Framebuffer_data fb)))
+    then None
+    else Some (Build_Framebuffer (fb_set_pixel (FbCfg U24 false W H) (Framebuffer_data fb) (px p, py p) (into c)) (Framebuffer_n_assert fb)).
 Proof.
-  intros HW Hx Hy Hbuf. unfold src_Framebuffer_set_pixel_RawU24_be, fb_set_pixel, Casts.try_from_range, i32_min, i32_max, buf_ok in *.
-  cbn [fb_t fb_w fb_h fb_alt]. change (bits U24 / 8) with 3 in Hbuf. change (src_RawU24_BITS_PER_PIXEL / 8) with 3.
-  destruct (Z.leb_spec 0 (px p)) as [X|X]; cbn [andb].
-  2:{ destruct ((px p <=? 18446744073709551615)); reflexivity. }
-  destruct (Z.leb_spec 0 (py p)) as [Y|Y]; cbn [andb].
-  2:{ rewrite (proj2 (Z.leb_le (px p) 18446744073709551615)) by lia. destruct (py p <=? 18446744073709551615); reflexivity. }
-  rewrite (proj2 (Z.leb_le (px p) 18446744073709551615)) by lia.
-  rewrite (proj2 (Z.leb_le (py p) 18446744073709551615)) by lia.
-  destruct ((px p <? W) && (py p <? H))%bool eqn:E; [|reflexivity].
-  apply andb_prop in E. destruct E as [E1 E2]. apply Z.ltb_lt in E1. apply Z.ltb_lt in E2.
-  cbv zeta. cbn [Framebuffer_data]. rewrite !Casts.cast_i32_usize_id by lia.
-  change (nbytes U24) with 3.
-  destruct (to_bytes_eq (into c)) as [B1 [B2 [B3 [B4 [B5 B6]]]]]. rewrite B4.
-  apply slice_copy_splice; [nia | destruct true; reflexivity | nia].
+  unfold src_Framebuffer_set_pixel_RawU24_le. change (src_RawU24_BITS_PER_PIXEL / 8) with 3. change (nbytes U24) with 3.
+  set_pixel_bytes B3 U24 3.
 Qed.
 
-Lemma src_fb_set_pixel_RawU32_le_eq W H into fb p c :
-  0 <= W -> i32_min <= px p <= i32_max -> i32_min <= py p <= i32_max -> buf_ok U32 W H (Framebuffer_data fb) ->
-  Framebuffer_data (src_Framebuffer_set_pixel_RawU32_le W H into fb p c)
-  = fb_set_pixel (FbCfg U32 false W H) (Framebuffer_data fb) (px p, py p) (into c).
+Lemma src_fb_set_pixel_RawU24_be_eq : forall W H into fb p c,
+  i32_min <= px p <= i32_max -> i32_min <= py p <= i32_max ->
+  src_Framebuffer_set_pixel_RawU24_be W H into fb p c
+  = if in_fb W H p && negb (bytes_end U24 W p <=? Z.of_nat (length (Framebuffer_data fb)))
+    then None
+    else Some (Build_Framebuffer (fb_set_pixel (FbCfg U24 true W H) (Framebuffer_data fb) (px p, py p) (into c)) (Framebuffer_n_assert fb)).
 Proof.
-  intros HW Hx Hy Hbuf. unfold src_Framebuffer_set_pixel_RawU32_le, fb_set_pixel, Casts.try_from_range, i32_min, i32_max, buf_ok in *.
-  cbn [fb_t fb_w fb_h fb_alt]. change (bits U32 / 8) with 4 in Hbuf. change (src_RawU32_BITS_PER_PIXEL / 8) with 4.
-  destruct (Z.leb_spec 0 (px p)) as [X|X]; cbn [andb].
-  2:{ destruct ((px p <=? 18446744073709551615)); reflexivity. }
-  destruct (Z.leb_spec 0 (py p)) as [Y|Y]; cbn [andb].
-  2:{ rewrite (proj2 (Z.leb_le (px p) 18446744073709551615)) by lia. destruct (py p <=? 18446744073709551615); reflexivity. }
-  rewrite (proj2 (Z.leb_le (px p) 18446744073709551615)) by lia.
-  rewrite (proj2 (Z.leb_le (py p) 18446744073709551615)) by lia.
-  destruct ((px p <? W) && (py p <? H))%bool eqn:E; [|reflexivity].
-  apply andb_prop in E. destruct E as [E1 E2]. apply Z.ltb_lt in E1. apply Z.ltb_lt in E2.
-  cbv zeta. cbn [Framebuffer_data]. rewrite !Casts.cast_i32_usize_id by lia.
-  change (nbytes U32) with 4.
-  destruct (to_bytes_eq (into c)) as [B1 [B2 [B3 [B4 [B5 B6]]]]]. rewrite B5.
-  apply slice_copy_splice; [nia | destruct false; reflexivity | nia].
+  unfold src_Framebuffer_set_pixel_RawU24_be. change (src_RawU24_BITS_PER_PIXEL / 8) with 3. change (nbytes U24) with 3.
+  set_pixel_bytes B4 U24 3.
 Qed.
 
-Lemma src_fb_set_pixel_RawU32_be_eq W H into fb p c :
-  0 <= W -> i32_min <= px p <= i32_max -> i32_min <= py p <= i32_max -> buf_ok U32 W H (Framebuffer_data fb) ->
-  Framebuffer_data (src_Framebuffer_set_pixel_RawU32_be W H into fb p c)
-  = fb_set_pixel (FbCfg U32 true W H) (Framebuffer_data fb) (px p, py p) (into c).
+Lemma src_fb_set_pixel_RawU32_le_eq : forall W H into fb p c,
+  i32_min <= px p <= i32_max -> i32_min <= py p <= i32_max ->
+  src_Framebuffer_set_pixel_RawU32_le W H into fb p c
+  = if in_fb W H p && negb (bytes_end U32 W p <=? Z.of_nat (length (Framebuffer_data fb)))
+    then None
+    else Some (Build_Framebuffer (fb_set_pixel (FbCfg U32 false W H) (Framebuffer_data fb) (px p, py p) (into c)) (Framebuffer_n_assert fb)).
 Proof.
-  intros HW Hx Hy Hbuf. unfold src_Framebuffer_set_pixel_RawU32_be, fb_set_pixel, Casts.try_from_range, i32_min, i32_max, buf_ok in *.
-  cbn [fb_t fb_w fb_h fb_alt]. change (bits U32 / 8) with 4 in Hbuf. change (src_RawU32_BITS_PER_PIXEL / 8) with 4.
-  destruct (Z.leb_spec 0 (px p)) as [X|X]; cbn [andb].
-  2:{ destruct ((px p <=? 18446744073709551615)); reflexivity. }
-  destruct (Z.leb_spec 0 (py p)) as [Y|Y]; cbn [andb].
-  2:{ rewrite (proj2 (Z.leb_le (px p) 18446744073709551615)) by lia. destruct (py p <=? 18446744073709551615); reflexivity. }
-  rewrite (proj2 (Z.leb_le (px p) 18446744073709551615)) by lia.
-  rewrite (proj2 (Z.leb_le (py p) 18446744073709551615)) by lia.
-  destruct ((px p <? W) && (py p <? H))%bool eqn:E; [|reflexivity].
-  apply andb_prop in E. destruct E as [E1 E2]. apply Z.ltb_lt in E1. apply Z.ltb_lt in E2.
-  cbv zeta. cbn [Framebuffer_data]. rewrite !Casts.cast_i32_usize_id by lia.
-  change (nbytes U32) with 4.
-  destruct (to_bytes_eq (into c)) as [B1 [B2 [B3 [B4 [B5 B6]]]]]. rewrite B6.
-  apply slice_copy_splice; [nia | destruct true; reflexivity | nia].
+  unfold src_Framebuffer_set_pixel_RawU32_le. change (src_RawU32_BITS_PER_PIXEL / 8) with 4. change (nbytes U32) with 4.
+  set_pixel_bytes B5 U32 4.
+Qed.
+
+Lemma src_fb_set_pixel_RawU32_be_eq : forall W H into fb p c,
+  i32_min <= px p <= i32_max -> i32_min <= py p <= i32_max ->
+  src_Framebuffer_set_pixel_RawU32_be W H into fb p c
+  = if in_fb W H p && negb (bytes_end U32 W p <=? Z.of_nat (length (Framebuffer_data fb)))
+    then None
+    else Some (Build_Framebuffer (fb_set_pixel (FbCfg U32 true W H) (Framebuffer_data fb) (px p, py p) (into c)) (Framebuffer_n_assert fb)).
+Proof.
+  unfold src_Framebuffer_set_pixel_RawU32_be. change (src_RawU32_BITS_PER_PIXEL / 8) with 4. change (nbytes U32) with 4.
+  set_pixel_bytes B6 U32 4.
+Qed.
+
+(* with the buffer that CHECK_N demands (buf_ok: N >= WIDTH * HEIGHT * bytes per pixel) set_pixel never panics *)
+Lemma in_fb_end_ok t W H p data : 0 < nbytes t -> bits t / 8 = nbytes t -> buf_ok t W H data ->
+  in_fb W H p && negb (bytes_end t W p <=? Z.of_nat (length data)) = false.
+Proof.
+  intros Hn Hb HB. destruct (in_fb W H p) eqn:E; [|reflexivity]. unfold in_fb in E.
+  repeat (apply andb_prop in E; destruct E as [E ?]).
+  repeat match goal with H : andb _ _ = true |- _ => apply andb_prop in H; destruct H end.
+  repeat match goal with H : (_ <=? _) = true |- _ => apply Z.leb_le in H | H : (_ <? _) = true |- _ => apply Z.ltb_lt in H end.
+  unfold buf_ok in HB. rewrite Hb in HB. unfold bytes_end. rewrite (proj2 (Z.leb_le _ _)); [reflexivity|].
+  assert (py p * W + px p + 1 <= W * H) by nia.
+  assert ((py p * W + px p + 1) * nbytes t <= W * H * nbytes t) by (apply Z.mul_le_mono_nonneg_r; lia). nia.
+Qed.
+
+Lemma src_fb_set_pixel_RawU16_le_some W H into fb p c :
+  i32_min <= px p <= i32_max -> i32_min <= py p <= i32_max -> buf_ok U16 W H (Framebuffer_data fb) ->
+  src_Framebuffer_set_pixel_RawU16_le W H into fb p c
+  = Some (Build_Framebuffer (fb_set_pixel (FbCfg U16 false W H) (Framebuffer_data fb) (px p, py p) (into c)) (Framebuffer_n_assert fb)).
+Proof.
+  intros Hx Hy HB. rewrite src_fb_set_pixel_RawU16_le_eq by assumption.
+  rewrite (in_fb_end_ok U16 W H p _ ltac:(reflexivity) ltac:(reflexivity) HB). reflexivity.
+Qed.
+
+Lemma src_fb_set_pixel_RawU16_be_some W H into fb p c :
+  i32_min <= px p <= i32_max -> i32_min <= py p <= i32_max -> buf_ok U16 W H (Framebuffer_data fb) ->
+  src_Framebuffer_set_pixel_RawU16_be W H into fb p c
+  = Some (Build_Framebuffer (fb_set_pixel (FbCfg U16 true W H) (Framebuffer_data fb) (px p, py p) (into c)) (Framebuffer_n_assert fb)).
+Proof.
+  intros Hx Hy HB. rewrite src_fb_set_pixel_RawU16_be_eq by assumption.
+  rewrite (in_fb_end_ok U16 W H p _ ltac:(reflexivity) ltac:(reflexivity) HB). reflexivity.
+Qed.
+
+Lemma src_fb_set_pixel_RawU24_le_some W H into fb p c :
+  i32_min <= px p <= i32_max -> i32_min <= py p <= i32_max -> buf_ok U24 W H (Framebuffer_data fb) ->
+  src_Framebuffer_set_pixel_RawU24_le W H into fb p c
+  = Some (Build_Framebuffer (fb_set_pixel (FbCfg U24 false W H) (Framebuffer_data fb) (px p, py p) (into c)) (Framebuffer_n_assert fb)).
+Proof.
+  intros Hx Hy HB. rewrite src_fb_set_pixel_RawU24_le_eq by assumption.
+  rewrite (in_fb_end_ok U24 W H p _ ltac:(reflexivity) ltac:(reflexivity) HB). reflexivity.
+Qed.
+
+Lemma src_fb_set_pixel_RawU24_be_some W H into fb p c :
+  i32_min <= px p <= i32_max -> i32_min <= py p <= i32_max -> buf_ok U24 W H (Framebuffer_data fb) ->
+  src_Framebuffer_set_pixel_RawU24_be W H into fb p c
+  = Some (Build_Framebuffer (fb_set_pixel (FbCfg U24 true W H) (Framebuffer_data fb) (px p, py p) (into c)) (Framebuffer_n_assert fb)).
+Proof.
+  intros Hx Hy HB. rewrite src_fb_set_pixel_RawU24_be_eq by assumption.
+  rewrite (in_fb_end_ok U24 W H p _ ltac:(reflexivity) ltac:(reflexivity) HB). reflexivity.
+Qed.
+
+Lemma src_fb_set_pixel_RawU32_le_some W H into fb p c :
+  i32_min <= px p <= i32_max -> i32_min <= py p <= i32_max -> buf_ok U32 W H (Framebuffer_data fb) ->
+  src_Framebuffer_set_pixel_RawU32_le W H into fb p c
+  = Some (Build_Framebuffer (fb_set_pixel (FbCfg U32 false W H) (Framebuffer_data fb) (px p, py p) (into c)) (Framebuffer_n_assert fb)).
+Proof.
+  intros Hx Hy HB. rewrite src_fb_set_pixel_RawU32_le_eq by assumption.
+  rewrite (in_fb_end_ok U32 W H p _ ltac:(reflexivity) ltac:(reflexivity) HB). reflexivity.
+Qed.
+
+Lemma src_fb_set_pixel_RawU32_be_some W H into fb p c :
+  i32_min <= px p <= i32_max -> i32_min <= py p <= i32_max -> buf_ok U32 W H (Framebuffer_data fb) ->
+  src_Framebuffer_set_pixel_RawU32_be W H into fb p c
+  = Some (Build_Framebuffer (fb_set_pixel (FbCfg U32 true W H) (Framebuffer_data fb) (px p, py p) (into c)) (Framebuffer_n_assert fb)).
+Proof.
+  intros Hx Hy HB. rewrite src_fb_set_pixel_RawU32_be_eq by assumption.
+  rewrite (in_fb_end_ok U32 W H p _ ltac:(reflexivity) ltac:(reflexivity) HB). reflexivity.
 Qed.
 
 Lemma src_fb_new_eq n : 0 <= n -> Framebuffer_data (src_Framebuffer_new n) = fb_new (Z.to_nat n).
